@@ -93,7 +93,7 @@ def step (s : St) : Op → St × Out
     match s.graph with
     | none => (s, .err "ValueError:compressed")                      -- refused before anything is touched
     | some g =>
-      if replaced.any (fun i => i ≥ s.logical.length) then (s, .err "IndexError") else
+      if replaced.any (fun i => i ≥ s.logical.length) then (s, .err "ValueError:index-range") else
       -- data preparation: caller order is restored iff `_vertex_order` exists
       let restored := match s.vo with
         | some v => permute s.raw (argsort v)
